@@ -9,6 +9,7 @@ driver operations of the compare engine:
 * `cmp.keys <path> <ck> <tr> <list value>`            → `ok <n> k1 … kn` | `err C`
 * `cmp.run <d|k> <flags6> <ck> <only> <excl> <tr> <a> <b>` → `ok <diffs> <hasDT> <hasEq> <n> e1 … en` | `err C`
 
+Trees holding the float `nan` or `-0.0` are answered `unsupported` by `cmp.run` (floats are opaque lexemes).
 `patarg` = `s <str>` | `t <n> <str>…`; `tr` = `<n> (<pat> <name>)…` with names
 `id lower const trunc`; `path` = `<n> (k<hex>|i<n>|j<n>_<m>)…`.  Entries are printed as
 single tokens and sorted (B compares entry *sets*).
@@ -141,6 +142,22 @@ def simpleFloatsK : List (Str × Val) → Bool
   | (_, x) :: xs => simpleFloats x && simpleFloatsK xs
 end
 
+mutual
+/-- floats are opaque lexemes in the model, compared as texts: `nan` (Python: `nan != nan`) and `-0.0` (Python:
+`0.0 == -0.0`) are outside its scope -/
+def modelFloats : Val → Bool
+  | .flt r => r != ['n', 'a', 'n'] && r != ['-', '0', '.', '0']
+  | .list _ xs => modelFloatsL xs
+  | .dict _ kvs => modelFloatsK kvs
+  | _ => true
+def modelFloatsL : List Val → Bool
+  | [] => true
+  | x :: xs => modelFloats x && modelFloatsL xs
+def modelFloatsK : List (Str × Val) → Bool
+  | [] => true
+  | (_, x) :: xs => modelFloats x && modelFloatsK xs
+end
+
 def valTok (v : Val) : String := ",".intercalate (encVal v)
 
 def pathTok (p : Path) : String := encStr (render p)
@@ -170,6 +187,7 @@ def runCmp (mode flags : String) (rest : List String) : Option String := do
   let (b, rest) ← readVal rest
   if !rest.isEmpty then none
   else if usesTrunc && !(simpleFloats a && simpleFloats b) then pure "unsupported"
+  else if !(modelFloats a && modelFloats b) then pure "unsupported"
   else
     let cfg : Cfg := ⟨fl, direct, ck, only, excl, tr⟩
     match compareTop cfg a b with
@@ -188,7 +206,7 @@ def runKeys (rest : List String) : Option String := do
     match v with
     | .list _ xs =>
       let cfg : Cfg := ⟨Flags.init, false, ck, .many [], .many [], tr⟩
-      match keysOf cfg p xs with
+      match keysOf cfg p 0 xs with
       | .ok ks => pure ("ok " ++ encStrs ks)
       | .error e => pure (showErr e)
     | _ => none
